@@ -120,3 +120,68 @@ package parser
 //@
 //@ func isValidIdentifier(id) (r)
 //@   ensures {C08} r ==> id != ""
+
+// ---- methods and interfaces (C09, C17, C14, C08, C03) -----------------------------------------------------------------
+
+//@ spec wfP(p *Parser) bool = wfParser(p) && p.file != nil && option.skipInv(p.opts) && tight(p.opts)
+//@ spec sixEqual(a option.Options, b option.Options) bool =
+//@     a.Style == b.Style && a.Rule == b.Rule && a.ExactCase == b.ExactCase && a.Getter == b.Getter &&
+//@     a.Stringer == b.Stringer && a.Typecast == b.Typecast
+//@ spec noNotes(cg *ast.CommentGroup) bool = !util.anyMatch(cg, reNotation)
+//@ spec wfDocs(p *Parser) bool = true
+//@
+//@ func (*Parser).parseMethod(p, method, opts) (m, err)
+//@   requires wfParser(p) && p.file != nil && method != nil && option.skipInv(opts) && tight(opts)
+//@   effects log, stdout
+//@   assigns all(ast.CommentGroup.List), all(ast.GenDecl.Doc), all(ast.FuncDecl.Doc), all(ast.TypeSpec.Doc), all(ast.Field.Doc)
+//@   ensures {C14,C09} err == nil ==> m != nil && fresh(m) && m.Method == method && option.skipInv(m.Opts)
+//@   ensures {C14,C08,C03} err == nil ==> is(objType(method), *types.Signature) && nPar(objSig(method)) > 0 && nRes(objSig(method)) > 0
+//@   ensures {C11} err == nil ==> m.DocComment == old(util.declDoc(p.file, method))
+//@   ensures {C09} err == nil && old(noNotes(util.declDoc(p.file, method))) ==> sixEqual(m.Opts, opts)
+//@   ensures err != nil ==> m == nil
+//@   check {C09} err == nil ==> m.Opts.ExactCase == toggleAfter(old(opts.ExactCase), notations, option.ValidOpsMethod, len(notations), "case", "case:off")
+//@   check {C09} err == nil ==> m.Opts.Getter == toggleAfter(old(opts.Getter), notations, option.ValidOpsMethod, len(notations), "getter", "getter:off")
+//@   check {C09} err == nil ==> m.Opts.Stringer == toggleAfter(old(opts.Stringer), notations, option.ValidOpsMethod, len(notations), "stringer", "stringer:off")
+//@   check {C09} err == nil ==> m.Opts.Typecast == toggleAfter(old(opts.Typecast), notations, option.ValidOpsMethod, len(notations), "typecast", "typecast:off")
+//@   check {C09} err == nil ==> m.Opts.Style == styleAfter(old(opts.Style), notations, option.ValidOpsMethod, len(notations))
+//@   check {C09} err == nil ==> m.Opts.Rule == ruleAfter(old(opts.Rule), notations, option.ValidOpsMethod, len(notations))
+//@
+//@ spec wfIntf(e *intfEntry) bool =
+//@     e != nil && e.intf != nil && is(underlying(objType(e.intf)), *types.Interface) && option.skipInv(e.opts) && tight(e.opts)
+//@ spec ifaceMethods(e *intfEntry) *types.MethodSet = methodSetOf(underlying(objType(e.intf)))
+//@ spec nthMethod(e *intfEntry, i int) types.Object = selObj(msetAt(ifaceMethods(e), i))
+//@
+//@ func (*Parser).parseMethods(p, intf) (r, err)
+//@   requires wfParser(p) && p.file != nil && wfIntf(intf)
+//@   effects log, stdout, stderr
+//@   assigns all(ast.CommentGroup.List), all(ast.GenDecl.Doc), all(ast.FuncDecl.Doc), all(ast.TypeSpec.Doc), all(ast.Field.Doc)
+//@   ensures {C14,C08,C17,C03} err == nil ==> len(r) == msetLen(ifaceMethods(intf))
+//@   ensures {C14,C08,C17} err == nil ==> forall(i, 0, len(r), r[i] != nil && r[i].Method == nthMethod(intf, i) && option.skipInv(r[i].Opts))
+//@   ensures {C14} err != nil ==> r == nil
+//@   loop 1 invariant 0 <= i && i <= msetLen(mset) && len(methods) <= i && fresh(methods) && sameOld(methods)
+//@   loop 1 invariant len(methods) == i ==> forall(j, 0, i, methods[j] != nil && methods[j].Method == nthMethod(intf, j) && option.skipInv(methods[j].Opts))
+//@
+//@ global intfName: intfName == "Convergen"
+//@ spec inFile(p *Parser, o types.Object) bool = positionOf(p.fset, objPos(o)).Filename == p.srcPath
+//@ spec isIface(o types.Object) bool = is(underlying(objType(o)), *types.Interface)
+//@
+//@ func (*Parser).findConvergenEntries(p) (r, err)
+//@   requires wfP(p)
+//@   effects log, stdout, random
+//@   assigns all(ast.CommentGroup.List), all(ast.GenDecl.Doc), all(ast.FuncDecl.Doc), all(ast.TypeSpec.Doc), all(ast.Field.Doc)
+//@   ensures {C17,C14} err == nil ==> len(r) > 0
+//@   ensures {C17,C09,C14} forall(i, 0, len(r), wfIntf(r[i]) && isIface(r[i].intf) && inFile(p, r[i].intf))
+//@   ensures {C09} forall(i, 0, len(r), len(r[i].opts.SkipFields) == len(p.opts.SkipFields) && r[i].opts.PreProcess == p.opts.PreProcess && r[i].opts.PostProcess == p.opts.PostProcess)
+//@   ensures {C17} err != nil ==> r == nil
+//@   atcall Nanoid: {C17} objName(obj) == intfName || isTarget
+//@   atcall Nanoid: {C17} isIface(obj) && inFile(p, obj)
+//@   atcall Nanoid: {C09} opts.ExactCase == toggleAfter(p.opts.ExactCase, notations, option.ValidOpsIntf, len(notations), "case", "case:off")
+//@   atcall Nanoid: {C09} opts.Getter == toggleAfter(p.opts.Getter, notations, option.ValidOpsIntf, len(notations), "getter", "getter:off")
+//@   atcall Nanoid: {C09} opts.Stringer == toggleAfter(p.opts.Stringer, notations, option.ValidOpsIntf, len(notations), "stringer", "stringer:off")
+//@   atcall Nanoid: {C09} opts.Typecast == toggleAfter(p.opts.Typecast, notations, option.ValidOpsIntf, len(notations), "typecast", "typecast:off")
+//@   atcall Nanoid: {C09,C08} opts.Style == styleAfter(p.opts.Style, notations, option.ValidOpsIntf, len(notations))
+//@   atcall Nanoid: {C09,C04} opts.Rule == ruleAfter(p.opts.Rule, notations, option.ValidOpsIntf, len(notations))
+//@   atcall append: {C09,C17} entry != nil && entry.intf == obj && sixEqual(entry.opts, *opts) && entry.marker == marker
+//@   loop 1 invariant $k <= scopeLen(scope) && fresh(entries) && sameOld(entries)
+//@   loop 1 invariant forall(i, 0, len(entries), wfIntf(entries[i]) && isIface(entries[i].intf) && inFile(p, entries[i].intf))
+//@   loop 1 invariant forall(i, 0, len(entries), len(entries[i].opts.SkipFields) == len(p.opts.SkipFields) && entries[i].opts.PreProcess == p.opts.PreProcess && entries[i].opts.PostProcess == p.opts.PostProcess)
